@@ -98,6 +98,15 @@ class Recorder:
         from nostr_relay.storage.base import BaseSubscription
 
         orig_subscribe = st.subscribe
+        orig_cls = st.subscription_class
+        rec.new_subs = []
+
+        def subscription_factory(*a, **k):
+            sub = orig_cls(*a, **k)
+            rec.new_subs.append(sub)
+            return sub
+
+        st.subscription_class = subscription_factory
         orig_unsubscribe = st.unsubscribe
         orig_add = st.add_event
         orig_fan = st.notify_all_connected
@@ -105,7 +114,7 @@ class Recorder:
         async def subscribe(client_id, sub_id, filters, queue, **kw):
             c = rec.conn_of(client_id)
             rec._wrap_queue(queue, c)
-            before = rec.registry().get(c, {})
+            rec.new_subs = []
             qlen = queue.qsize()
             err = None
             try:
@@ -116,13 +125,15 @@ class Recorder:
             finally:
                 after = rec.registry().get(c, {})
                 sid = rec.sid_sym(sub_id)
-                subs = st.clients.get(client_id, {})
-                sub = subs.get(sub_id)
+                # the Subscription object this call created and started (seen through the wrapped subscription_class,
+                # not through storage.clients: the registry is what is being checked)
+                started = [sb for sb in rec.new_subs if getattr(sb, "query_task", None) is not None]
+                rec.new_subs = []
                 gen = 0
-                if sub is not None and rec.gen_of(sub) != before.get(sid):
+                if started:
+                    sub = started[-1]
                     gen = rec.gen_of(sub)
-                    if getattr(sub, "query_task", None) is not None:
-                        rec.task_gen[sub.query_task] = (c, sid, gen)
+                    rec.task_gen[sub.query_task] = (c, sid, gen)
                 if err is None:
                     out = "started" if gen else ("eose" if queue.qsize() > qlen else "nothing")
                 elif "too many" in err:
